@@ -711,8 +711,23 @@ func c04mutate(rng *core.Rng, msgs [][]byte) ([][]byte, string) {
 }
 
 // fabrication: data reaching callbacks must be derivable from well-framed input.
+// fabrication: only well-framed input may reach callbacks. A first packet carrying the GSSENCRequest code
+// is framed in the two ways a server may take it - a negotiation packet answered with one byte, after which
+// the start-up packet follows (as for SSLRequest), or a start-up packet of a protocol version the server
+// does not tell from any other (what this library does: it has no GSS support and checks no version) -
+// and what reached the callbacks has to be explained by one of them.
 func (ch c04) fabrication(c *core.Ctx, stream []byte, conn *tr.Conn, cs any) {
 	c.Count("fabrication_checks", 1)
+	sig, detail := ch.fabricationWith(stream, conn, cs, false)
+	if sig != "" && len(stream) >= 8 && binary.BigEndian.Uint32(stream[4:8]) == pg.VerGSSENC {
+		sig, detail = ch.fabricationWith(stream, conn, cs, true)
+	}
+	if sig != "" {
+		c.Violate("fabricated", sig, detail, cs)
+	}
+}
+
+func (ch c04) fabricationWith(stream []byte, conn *tr.Conn, cs any, gssIsStartup bool) (sig, detail string) {
 	// frame walk (after the optional SSLRequest and the startup packet)
 	off := 0
 	untyped := func() (int, bool) {
@@ -727,7 +742,7 @@ func (ch c04) fabrication(c *core.Ctx, stream []byte, conn *tr.Conn, cs any) {
 	}
 	startupOK := false
 	if l, ok := untyped(); ok {
-		if code := binary.BigEndian.Uint32(stream[off+4:]); code == pg.VerSSL || code == pg.VerGSSENC {
+		if code := binary.BigEndian.Uint32(stream[off+4:]); code == pg.VerSSL || code == pg.VerGSSENC && !gssIsStartup {
 			// an SSLRequest / GSSENCRequest code (whatever the packet's declared length): answered with N,
 			// the start-up packet follows
 			off += l
@@ -779,8 +794,7 @@ func (ch c04) fabrication(c *core.Ctx, stream []byte, conn *tr.Conn, cs any) {
 		case "parse":
 			q := e.Data.(hs.ParseRec).Query
 			if !startupOK {
-				c.Violate("fabricated", "parser invoked although the startup packet is truncated or invalid", fmt.Sprintf("query %q", trim(q, 80)), cs)
-				return
+				return "parser invoked although the startup packet is truncated or invalid", fmt.Sprintf("query %q", trim(q, 80))
 			}
 			if !judge {
 				continue
@@ -794,26 +808,23 @@ func (ch c04) fabrication(c *core.Ctx, stream []byte, conn *tr.Conn, cs any) {
 				}
 			}
 			if !found {
-				c.Violate("fabricated", "parser received a query text that no well-framed Query/Parse frame of the input carries (in order)", fmt.Sprintf("query %q; candidates %q", trim(q, 80), cands), cs)
-				return
+				return "parser received a query text that no well-framed Query/Parse frame of the input carries (in order)", fmt.Sprintf("query %q; candidates %q", trim(q, 80), cands)
 			}
 		case "exec":
 			for _, p := range e.Data.(hs.ExecRec).Params {
 				if p != nil && !bytes.Contains(stream, p) {
-					c.Violate("fabricated", "statement received a parameter value that is not part of the input", hexs(p), cs)
-					return
+					return "statement received a parameter value that is not part of the input", hexs(p)
 				}
 			}
 		case "copyread":
 			r := e.Data.(hs.CopyRec)
 			if m, _ := cs.(map[string]any); r.ErrNil && r.Row != nil && m != nil && m["session"] == "copy-binary-copydone-inside-the-first-row" {
-				c.Violate("fabricated", "the binary row reader returned a row although the stream was ended (CopyDone) inside its first row", fmt.Sprintf("row %v", r.Row), cs)
-				return
+				return "the binary row reader returned a row although the stream was ended (CopyDone) inside its first row", fmt.Sprintf("row %v", r.Row)
 			}
 			if r.ErrNil && r.Chunk != nil && !bytes.Contains(stream, r.Chunk) {
-				c.Violate("fabricated", "COPY handler received a chunk that is not part of the input", hexs(r.Chunk), cs)
-				return
+				return "COPY handler received a chunk that is not part of the input", hexs(r.Chunk)
 			}
 		}
 	}
+	return "", ""
 }
